@@ -13,7 +13,7 @@
 //!
 //! Output (compared with the Lean model): one token per consumer-visible event, each suffixed with
 //! `@k` = number of script items the parser had pulled from the stream at that moment:
-//!   `F<name-hex>;<hdr>=<val>,…@k`  field delivered      `D<hex>@k` content chunk      `N@k` field finished
+//!   `F<name-hex>;<hdr>=<val>,…@k`  field delivered      `D<hex>@k` content (consecutive chunks merged, k of the last)      `N@k` field finished
 //!   `X@k` field dropped early      `EOF@k` | `ERR:<kind>@k` | `HANG@k` | `SPIN@k` final state.
 use std::{
     cell::{Cell, RefCell},
@@ -262,9 +262,25 @@ fn drive(s: &Setup, script: &[Tok]) -> Vec<(Ev, usize)> {
     r
 }
 
+/// consecutive content chunks of a field are one observable (how the content is cut into chunks is
+/// not part of the property): they are merged, keeping the pulled-count of the last one
+fn merge_data(tr: &[(Ev, usize)]) -> Vec<(Ev, usize)> {
+    let mut out: Vec<(Ev, usize)> = Vec::new();
+    for (e, k) in tr {
+        if let (Ev::Data(d), Some((Ev::Data(prev), pk))) = (e, out.last_mut()) {
+            prev.extend_from_slice(d);
+            *pk = *k;
+            continue;
+        }
+        out.push((e.clone(), *k));
+    }
+    out
+}
+
 fn show_trace(tr: &[(Ev, usize)]) -> String {
     let mut out = Vec::new();
-    for (e, k) in tr {
+    let tr = merge_data(tr);
+    for (e, k) in &tr {
         let s = match e {
             Ev::Field { name, hdrs } => {
                 let hs: Vec<String> = hdrs.iter().map(|(n, v)| format!("{}={}", n, hex(v))).collect();
@@ -515,6 +531,55 @@ fn run(line: &str) -> CaseResult {
                     format!("field #{}: content {} expected {}{}", i, hex(&f.content), if complete { "" } else { "a prefix of " }, hex(gc)),
                 );
                 break;
+            }
+        }
+        // buffer bound: at every event of a well-formed, fully read body the parser's position in the
+        // body is known exactly, so (bytes pulled from the stream) - (bytes consumed) = buffered + kept-back
+        // rest of the last chunk; that must not exceed limit + that chunk
+        if !damaged && all_read && !gt.is_empty() {
+            let body = body_of(&case.script);
+            let mut layout: Vec<u8> = Vec::new();
+            let mut starts = Vec::new();
+            for (h, c, _) in gt.iter() {
+                layout.extend_from_slice(b"--");
+                layout.extend_from_slice(&case.setup.boundary);
+                layout.extend_from_slice(b"\r\n");
+                layout.extend_from_slice(h);
+                layout.extend_from_slice(b"\r\n");
+                starts.push(layout.len());
+                layout.extend_from_slice(c);
+                layout.extend_from_slice(b"\r\n");
+            }
+            if let Some(pre) = body.windows(layout.len()).position(|w| w == layout.as_slice()) {
+                let limit = if case.setup.lim == 0 { 65536 } else { case.setup.lim };
+                let mut fi = 0usize;
+                let mut consumed = 0usize;
+                for (e, k) in &tr {
+                    match e {
+                        Ev::Field { .. } => {
+                            consumed = pre + starts[fi.min(starts.len() - 1)];
+                            fi += 1;
+                        }
+                        Ev::Data(d) => consumed += d.len(),
+                        Ev::FieldEnd => consumed += 2,
+                        _ => continue,
+                    }
+                    let mut pulled = 0usize;
+                    let mut last = 0usize;
+                    for t in case.script.iter().take(*k) {
+                        if let Tok::Chunk(c) = t {
+                            pulled += c.len();
+                            last = c.len();
+                        }
+                    }
+                    if pulled > consumed + limit + last {
+                        res = res.fail(
+                            "buffer-bound",
+                            format!("{} bytes pulled from the stream, {} consumed: more than limit {} + last chunk {} are held", pulled, consumed, limit, last),
+                        );
+                        break;
+                    }
+                }
             }
         }
         // overflow is legitimate only if some look-ahead unit does not fit the limit
